@@ -160,6 +160,13 @@ def intended(op, args, kw, cfg):
         delay = arg(0, "delay", 0)
         ok = is_int(delay) and 0 <= delay <= I64[1]
         return ok, [sig(b"flush_all", exptime=delay, noreply=nr, xargs=[b"%d" % delay])] if ok else []
+    if op == "version":
+        return True, [sig(b"version")]
+    if op == "quit":
+        return True, [sig(b"quit", noreply=True)]
+    if op == "shutdown":
+        graceful = arg(0, "graceful", False)
+        return True, [sig(b"shutdown", xargs=[b"graceful"] if graceful else [])]
     if op == "cache_memlimit":
         m = arg(0, "memlimit")
         ok = is_int(m) and m >= 0
